@@ -193,7 +193,8 @@ def tag_fields(t, algo):
          "tag_timezone": t["ttz"]["off"] if t["tagger"] else None,
          "tag_timezone_neg_utc": t["ttz"]["negutc"] if t["tagger"] else False,
          "message": lines_of(t["message"]),
-         "signature": lines_of(t["signature"])}
+         "signature": lines_of(t["signature"]),
+         "blank": t.get("blank", True)}
     return d
 
 
@@ -208,7 +209,8 @@ def commit_fields(c, algo):
             "mergetag": [tag_fields(t, algo) for t in c["mergetags"]],
             "extra": [(KEYS[e["k"]], lines_of(e["v"])) for e in c["extra"]],
             "gpgsig": lines_of(c["gpgsig"]),
-            "message": lines_of(c["message"])}
+            "message": lines_of(c["message"]),
+            "blank": c.get("blank", True)}
 
 
 def tree_entries(key: str, algo):
@@ -232,16 +234,10 @@ COMMIT_ATTRS = {"tree": ["tree"], "parents": ["parents"], "author": ["author"], 
                 "atz": ["author_timezone", "author_timezone_neg_utc"], "committer": ["committer"],
                 "ctime": ["commit_time"], "ctz": ["commit_timezone", "commit_timezone_neg_utc"],
                 "encoding": ["encoding"], "mergetags": ["mergetag"], "extra": ["extra"], "gpgsig": ["gpgsig"],
-                "message": ["message"]}
+                "message": ["message"], "blank": None}    # blank: no API; such objects only come from parsing
 TAG_ATTRS = {"target": ["object"], "name": ["name"], "tagger": ["tagger", "tag_time", "tag_timezone", "tag_timezone_neg_utc"],
              "ttime": ["tag_time"], "ttz": ["tag_timezone", "tag_timezone_neg_utc"], "message": ["message"],
-             "signature": ["signature"]}
-
-
-def deviation(key: str, nfields: int):
-    """Fields (positions) where an index vector differs from the nearer of the two base cases."""
-    ix = [int(x) for x in key.split(",")]
-    return ix
+             "signature": ["signature"], "blank": None}
 
 
 # ----------------------------------------------------------------------------- concrete -> abstract (literal atoms, for ObjGrammarTrace)
@@ -266,7 +262,7 @@ def tag_case(F):
             "tagger": [_b(F["tagger"])] if has else [],
             "ttime": limbs_of(F["tag_time"] if has else 0),
             "ttz": tz_case(F["tag_timezone"] if has else 0, F["tag_timezone_neg_utc"] if has else False),
-            "message": _lines(F["message"]), "signature": _lines(F["signature"])}
+            "message": _lines(F["message"]), "signature": _lines(F["signature"]), "blank": F.get("blank", True)}
 
 
 def commit_case(F):
@@ -278,7 +274,7 @@ def commit_case(F):
             "encoding": [_b(F["encoding"])] if F["encoding"] is not None else [],
             "mergetags": [tag_case(t) for t in F["mergetag"]],
             "extra": [{"k": _b(k), "v": _lines(v)} for (k, v) in F["extra"]],
-            "gpgsig": _lines(F["gpgsig"]), "message": _lines(F["message"])}
+            "gpgsig": _lines(F["gpgsig"]), "message": _lines(F["message"]), "blank": F.get("blank", True)}
 
 
 def tree_case(entries):
